@@ -1,6 +1,7 @@
 #!/usr/bin/env python3
 """cxx2c part 3: one function body -> C statements (A-normal form)."""
 import re
+import hashlib
 from cxx2c import *
 from cxx2c_fn import Scope, SIMPLE_RE
 
@@ -1210,6 +1211,14 @@ class FnLower:
                 return p, False
         if name == 'operator=' and len(args) == 2:
             lt = L.deref_t(args[0]['type'])
+            if lt[0] == 'model' and lt[1] == 'struct vp_function':
+                r0 = self.strip_casts(args[1])
+                if r0.get('kind') == 'DeclRefExpr' and r0['referencedDecl'].get('kind') == 'FunctionDecl':
+                    # std::function assigned from a named function: in the opaque model a function object is its identity
+                    fid = -(1 + int(hashlib.md5((r0['referencedDecl'].get('name') or '').encode()).hexdigest()[:6], 16) % 1000)
+                    lhs, = self.operands([('addr', args[0])])
+                    self.emit('(%s)->id = %d; /* = function %s */' % (lhs, fid, r0['referencedDecl'].get('name')))
+                    return lhs, True
             if lt[0] in ('builtin',) or (lt[0] == 'model' and not lt[1].startswith('struct')):
                 lhs, rhs = self.operands([('lv', args[0]), ('rv', args[1])])
                 self.emit('%s = %s;' % (lhs, rhs))
